@@ -76,6 +76,7 @@ impl TlsClientHelloReader {
                 "First byte is not TLS Handshake (0x16), got 0x{:02x}. Might be continuation data.",
                 content_type
             );
+            self.buffer.clear();
             return Ok(None);
         }
 
